@@ -21,7 +21,7 @@ cmake -G Ninja -S $W/repo -B $W/b0 -DCMAKE_BUILD_TYPE=RelWithDebInfo -DCMAKE_CXX
 build_demo $W/b0 $W/demo0 > $W/demo0.log 2>&1 || { res "demo does not compile on clean tree"; tail -5 $W/demo0.log; cleanup; exit 2; }
 (cd $W && QT_QPA_PLATFORM=offscreen timeout 300 ./demo0 > $W/run0.log 2>&1); RC0=$?
 # patched build with tests
-git -C $W/repo apply $S/patch.diff || { res "patch does not apply"; cleanup; exit 2; }
+(git -C $W/repo apply $S/patch.diff 2>/dev/null || (cd $W/repo && patch -p1 -F3 --no-backup-if-mismatch -s < $S/patch.diff)) || { res "patch does not apply"; cleanup; exit 2; }
 cmake -G Ninja -S $W/repo -B $W/b1 -DCMAKE_BUILD_TYPE=RelWithDebInfo -DCMAKE_CXX_FLAGS=-Wno-error -DBUILD_TESTS=ON -DBUILD_INTERNAL_TESTS=ON -DBUILD_EXAMPLES=OFF >/dev/null 2>&1 && cmake --build $W/b1 -j16 > $W/build1.log 2>&1 || { res "patched tree does not compile"; tail -5 $W/build1.log; cleanup; exit 2; }
 (cd $W/b1 && QT_QPA_PLATFORM=offscreen ctest -j8 --timeout 300 -E "tst_qxmppiceconnection|tst_qxmppserver" > $W/ctest.log 2>&1); RCT=$?
 build_demo $W/b1 $W/demo1 > $W/demo1.log 2>&1 || { res "demo does not compile on patched tree"; cleanup; exit 2; }
